@@ -10,7 +10,8 @@ Model-level statements go through `DMat.toMatrix`, i.e. they are about the very 
 
 PROVED for all sizes / inputs / hyperparameters: RBF (also ARD), RQ (also ARD), Matérn-½, -3/2 and -5/2 in input dimension
 one, the triangle kernel (piecewise polynomial q = 0, d = 1), Hamming-IMQ (any sequence length / vocabulary),
-PolynomialKernelGrad (value / gradient blocks of `(⟨x,y⟩+c)^p`, every n, d, p), cosine (d = 1),
+PolynomialKernelGrad (value / gradient blocks of `(⟨x,y⟩+c)^p`, every n, d, p), RBFKernelGrad (shared and ARD lengthscales,
+every n, d), cosine (d = 1),
 periodic, spectral mixture, linear, constant, polynomial, index, multitask / LCM (Kronecker), cylindrical (given a PSD
 radial factor — the radial kernel acts on one-dimensional radii, so RBF / RQ / Matérn bases are covered), scale, sums,
 products; and the general tools `gram_l2_psd` / `gram_autocorrelation_psd` (`k(a,b) = ∫ g(t−a) g(t−b) dt`),
@@ -18,10 +19,10 @@ products; and the general tools `gram_l2_psd` / `gram_autocorrelation_psd` (`k(a
 
 NOT PROVED (observed only, see `gram_psd_partial` at the end): positive definiteness of the Matérn covariance
 *functions* in input dimension d > 1 (ν = ½, 3/2, 5/2), of the piecewise-polynomial functions for q ≥ 1 (any d) and q = 0 in
-d > 1, and of the derivative kernels RBFKernelGrad, RBFKernelGradGrad, Matern52KernelGrad.  The first two are Bochner /
-Schoenberg-level harmonic analysis in ℝ^d which Mathlib does not provide (in d = 1 the autocorrelation representation
-replaces it); the last needs the jet (value / gradient) version of `gram_exp_psd` resp. of the Matérn representation
-(`gram_jet_product_psd` is the algebraic half of it).
+d > 1, and of the derivative kernels RBFKernelGradGrad (second-order jets) and Matern52KernelGrad.  The first two are
+Bochner / Schoenberg-level harmonic analysis in ℝ^d which Mathlib does not provide (in d = 1 the autocorrelation representation
+replaces it); RBFKernelGradGrad needs the second-order version of `gram_jet_product_psd` / `gram_exp_grad_psd`, Matern52KernelGrad
+a differentiable integral representation of the Matérn kernel in ℝ^d.
 -/
 import GPVerif.Bridge.PSD
 import GPVerif.Bridge.RBF
@@ -30,6 +31,7 @@ import GPVerif.Bridge.Matern12
 import GPVerif.Bridge.Autocorr
 import GPVerif.Bridge.HammingIMQ
 import GPVerif.Bridge.JetProduct
+import GPVerif.Bridge.JetExp
 
 open Matrix
 open scoped Kronecker
@@ -406,6 +408,29 @@ theorem gram_polynomial_grad_psd {d : Type*} [Fintype d] [DecidableEq d] (X : Ma
           (if a = b then p * ((X * Xᵀ) u.1 v.1 + c) ^ (p - 1) else 0) :
       Matrix (ι × Option d) (ι × Option d) ℝ).PosSemidef := polyGrad_psd X hc p
 
+/-- value / gradient blocks of `exp⟨x, y⟩` — `[e^s, e^s x_i b; e^s x_j a, e^s (x_j a x_i b + δ_ab)]` — are PSD: the jet version of
+`gram_exp_psd` (limit of `∑_{k<N} blocks(⟨x,y⟩^k)/k!`, exponential series shifted by 0, 1 and 2). -/
+theorem gram_exp_grad_psd {d : Type*} [Fintype d] [DecidableEq d] (Z : Matrix ι d ℝ) :
+    (of fun u v => match u.2, v.2 with
+      | none, none => Real.exp ((Z * Zᵀ) u.1 v.1)
+      | none, some b => Real.exp ((Z * Zᵀ) u.1 v.1) * Z u.1 b
+      | some a, none => Real.exp ((Z * Zᵀ) u.1 v.1) * Z v.1 a
+      | some a, some b => Real.exp ((Z * Zᵀ) u.1 v.1) * (Z v.1 a * Z u.1 b + (if a = b then 1 else 0)) :
+      Matrix (ι × Option d) (ι × Option d) ℝ).PosSemidef := expGrad_psd Z
+
+/-- **`RBFKernelGrad`** (shared or ARD lengthscales `ℓ_k ≠ 0`): the value / gradient block matrix that
+`RBFKernelGrad.forward` assembles — with `k = exp(−½ Σ_k ((x_i−x_j)_k/ℓ_k)²)` and `o_a = (x_i − x_j)_a/ℓ_a²`:
+`K11 = k`, `K12 = k·o_b`, `K21 = −k·o_a`, `K22 = k·(δ_ab/ℓ_a² − o_a o_b)` — is PSD for every finite point set (duplicates allowed)
+and every input dimension. -/
+theorem gram_rbf_grad_psd {d : Type*} [Fintype d] [DecidableEq d] (X : Matrix ι d ℝ) (ℓ : d → ℝ) (hℓ : ∀ k, ℓ k ≠ 0) :
+    (of fun u v => match u.2, v.2 with
+      | none, none => Real.exp (-(∑ k, ((X u.1 k - X v.1 k) / ℓ k) ^ 2) / 2)
+      | none, some b => Real.exp (-(∑ k, ((X u.1 k - X v.1 k) / ℓ k) ^ 2) / 2) * ((X u.1 b - X v.1 b) / ℓ b ^ 2)
+      | some a, none => -(Real.exp (-(∑ k, ((X u.1 k - X v.1 k) / ℓ k) ^ 2) / 2) * ((X u.1 a - X v.1 a) / ℓ a ^ 2))
+      | some a, some b => Real.exp (-(∑ k, ((X u.1 k - X v.1 k) / ℓ k) ^ 2) / 2) *
+          ((if a = b then 1 / ℓ a ^ 2 else 0) - (X u.1 a - X v.1 a) / ℓ a ^ 2 * ((X u.1 b - X v.1 b) / ℓ b ^ 2)) :
+      Matrix (ι × Option d) (ι × Option d) ℝ).PosSemidef := rbfGrad_psd X ℓ hℓ
+
 /-- entrywise product of finitely many PSD matrices (`ProductStructureKernel`, products of several factors). -/
 theorem gram_finite_product_psd {q : Type*} (s : Finset q) (Kf : q → Matrix ι ι ℝ) (h : ∀ a ∈ s, (Kf a).PosSemidef) :
     (of fun i j => ∏ a ∈ s, Kf a i j : Matrix ι ι ℝ).PosSemidef := hprod_psd s Kf h
@@ -623,13 +648,14 @@ end model
 Full strength (NOT proved — Bochner / Schoenberg):
 
   theorem gram_psd (k ∈ {Matérn ν ∈ {½, 3/2, 5/2} in input dimension d > 1, piecewise polynomial (q ≥ 1; q = 0 in d > 1),
-      RBFKernelGrad, RBFKernelGradGrad, Matern52KernelGrad})
+      RBFKernelGradGrad, Matern52KernelGrad})
       (x : Fin n → domain k) : (of fun i j => k (x i) (x j)).PosSemidef
 
 (RBF, RQ, cosine d = 1, periodic and spectral mixture, listed as unprovable in DESIGN.md, ARE proved above:
 `gram_rbf_psd`, `gram_rq_psd`, `gram_cosine_psd`, `gram_periodic_psd`, `gram_spectral_mixture_psd`; in dimension one
 Matérn-½ / 3/2 / 5/2: `gram_matern12_1d_psd`, `gram_matern32_1d_psd`, `gram_matern52_1d_psd`, the triangle kernel
-`gram_piecewise_q0_1d_psd`; Hamming-IMQ: `gram_hamming_imq_psd`; PolynomialKernelGrad: `gram_polynomial_grad_psd`.)
+`gram_piecewise_q0_1d_psd`; Hamming-IMQ: `gram_hamming_imq_psd`; PolynomialKernelGrad: `gram_polynomial_grad_psd`; RBFKernelGrad:
+`gram_rbf_grad_psd`.)
 
 Proved weakening: the order-2 necessary conditions for a stationary kernel `k(x,y) = f(dist x y)` with
 `|f r| ≤ f 0` (which Matérn and piecewise polynomial satisfy): the Gram matrix is symmetric, has
@@ -714,6 +740,10 @@ example (x : Fin 2 → ℝ) : ∀ i j, MeasureTheory.Integrable
     (fun t => (fun (i : Fin 2) (t : ℝ) => Real.exp (-|t - x i|)) i t * (fun (i : Fin 2) (t : ℝ) => Real.exp (-|t - x i|)) j t)
       MeasureTheory.volume :=
   fun i j => (integral_exp_abs_mul (x i) (x j)).1
+
+/-- the lengthscale hypothesis of `gram_rbf_grad_psd` is satisfiable. -/
+example : ∀ k : Fin 2, (![(7 : ℝ) / 10, 19 / 10]) k ≠ 0 := by
+  intro k; fin_cases k <;> norm_num
 
 /-- softplus hypothesis of `noise_ge_lower` is satisfiable (`tr = softplusT Real.exp Real.log 20`). -/
 example : ∀ x : ℝ, 0 < softplusT Real.exp Real.log 20 x := softplus_pos (by norm_num)
